@@ -99,9 +99,9 @@ func (c *memConn) SetWriteDeadline(t time.Time) error { return nil }
 // run as ordinary goroutines to completion), so that a controlled execution starts from a
 // quiescent, established pair.
 type established struct {
-	cl, sv   *gmtls.Conn
-	ct, st   *memConn
-	preload  string
+	cl, sv  *gmtls.Conn
+	ct, st  *memConn
+	preload string
 }
 
 func establish(suite uint16, preload string) *established {
@@ -233,7 +233,7 @@ func connScenarios() []scenario {
 			}})
 		// two readers, one Read call each: the bytes are handed out in stream order without loss or duplication
 		out = append(out, scenario{name: fmt.Sprintf("one-conn-read-read/%04x", suite), bound: 2, boundT: 3,
-			setup: func() interface{} { return establish(suite, "0123456789") },
+			setup:   func() interface{} { return establish(suite, "0123456789") },
 			threads: rd2(),
 			accept: func(st interface{}, res []interface{}) string {
 				a, b := fmt.Sprint(res[0]), fmt.Sprint(res[1])
@@ -252,8 +252,11 @@ func connScenarios() []scenario {
 // controlled threads (client and server of each pair), sharing the configurations.
 type fresh struct {
 	cc, sc *gmtls.Config
+	ccs    []*gmtls.Config // per-pair client configurations (distinct server names, ONE shared session cache)
 	cl, sv []*gmtls.Conn
 }
+
+var ticketKey1, ticketKey2 = [32]byte{1, 1, 1}, [32]byte{2, 2, 2}
 
 func newFresh(pairs int, cache bool) *fresh {
 	p := tlsk.Get()
@@ -262,10 +265,17 @@ func newFresh(pairs int, cache bool) *fresh {
 	f.cc = &gmtls.Config{GMSupport: &gmtls.GMSupport{}, RootCAs: p.Roots, ServerName: tlsk.ServerName, Time: tlsk.FixedTime, Rand: wire.NewRand(6), CipherSuites: []uint16{gmtls.GMTLS_ECC_SM4_CBC_SM3}}
 	if cache {
 		f.cc.ClientSessionCache = gmtls.NewLRUClientSessionCache(4)
+		f.sc.SetSessionTicketKeys([][32]byte{ticketKey1})
 	}
 	for i := 0; i < pairs; i++ {
 		a, b := newMemPair()
-		f.cl = append(f.cl, gmtls.Client(a, f.cc))
+		cc := f.cc
+		if cache && i > 0 {
+			cc = f.cc.Clone() // shares the session cache; another (certified) name gives another cache key
+			cc.ServerName = tlsk.AltName
+		}
+		f.ccs = append(f.ccs, cc)
+		f.cl = append(f.cl, gmtls.Client(a, cc))
 		f.sv = append(f.sv, gmtls.Server(b, f.sc))
 	}
 	return f
@@ -312,10 +322,33 @@ func handshakeScenarios() []scenario {
 			setup: func() interface{} { return newFresh(2, true) },
 			threads: []func(interface{}) interface{}{hsThread(true, 0), hsThread(false, 0), hsThread(true, 1), hsThread(false, 1),
 				func(st interface{}) interface{} {
-					st.(*fresh).sc.SetSessionTicketKeys([][32]byte{{7}, {9}})
+					// rotation that KEEPS the old key: whatever the order, every ticket issued by
+					// either handshake stays valid afterwards
+					st.(*fresh).sc.SetSessionTicketKeys([][32]byte{ticketKey2, ticketKey1})
 					return "<nil>"
 				}},
-			accept: allNil("two connections sharing their configurations")},
+			accept: func(st interface{}, res []interface{}) string {
+				if why := allNil("two connections sharing their configurations")(st, res); why != "" {
+					return why
+				}
+				// afterwards (outside the controlled execution) each client reconnects: in every
+				// sequential order of the calls its ticket is valid, so the session must be resumed
+				f := st.(*fresh)
+				for i, cc := range f.ccs {
+					a, b := newMemPair()
+					cl, sv := gmtls.Client(a, cc), gmtls.Server(b, f.sc)
+					ch := make(chan error, 1)
+					go func() { ch <- sv.Handshake() }()
+					err := cl.Handshake()
+					if e2 := <-ch; err != nil || e2 != nil {
+						return fmt.Sprintf("second connection of client %d fails: %v / %v", i, err, e2)
+					}
+					if !cl.ConnectionState().DidResume || !sv.ConnectionState().DidResume {
+						return fmt.Sprintf("the ticket issued to client %d while the keys were rotated (old key kept) is not accepted afterwards: no sequential order of the calls gives that", i)
+					}
+				}
+				return ""
+			}},
 	}
 }
 
